@@ -114,6 +114,9 @@ type TransferOpts struct {
 	MaxWall time.Duration
 	// KeepOpen keeps sessions open on return (caller closes).
 	KeepOpen bool
+	// IdxBase is added to the session indices used for the destination names
+	// (so several runs on one environment do not collide).
+	IdxBase int
 	// TailCheck, if > 0, makes every reader wait this long after its last
 	// expected byte and report any further byte as a violation (exactly-once).
 	TailCheck time.Duration
@@ -227,7 +230,7 @@ func RunTransfer(env *Env, progs []SessProg, opts TransferOpts) *RunResult {
 			sr := &res.Sessions[i]
 			sr.Idx = i
 			prog := progs[i]
-			c, err := env.Dial(ctx, i)
+			c, err := env.Dial(ctx, opts.IdxBase+i)
 			if err != nil {
 				sr.OpenErr = "dial: " + err.Error()
 				return
@@ -263,7 +266,7 @@ func RunTransfer(env *Env, progs []SessProg, opts TransferOpts) *RunResult {
 				runReader(c, downKey, prog.Down, &sr.Down, bump, abort, opts.TailCheck, func(off int64, got []byte) string { return cc.classify(i, 1, off, got) })
 			}()
 			// server side
-			sc, err := env.ServerSide(i, opts.MaxWall)
+			sc, err := env.ServerSide(opts.IdxBase+i, opts.MaxWall)
 			if err != nil {
 				sr.OpenErr = "server side: " + err.Error()
 				doAbort()
